@@ -305,6 +305,8 @@ pub fn eval(e: &Expr, s: &MStore) -> Ev {
         "nested-tuple" => { if vals.len() < 3 { return Ev::Unsure; } let inner = SV::Tuple(vec![vals[0].clone(), vals[1].clone()]); let mut outer = vec![inner]; outer.extend(vals[2..].iter().cloned()); Ev::Val(SV::Tuple(outer)) }
         "set" => {
           if vals.is_empty() || !vals.iter().all(|v| matches!(v, SV::F64(_))) { return Ev::Unsure; }
+          // whether NaN equals NaN as a set element (or -0.0 equals 0.0) is set algebra (C14), not isolation: not predicted
+          if vals.iter().any(|v| matches!(v, SV::F64(b) if f64::from_bits(*b).is_nan() || (f64::from_bits(*b) == 0.0 && f64::from_bits(*b).is_sign_negative()))) { return Ev::Unsure; }
           let mut els: Vec<SV> = vec![]; for v in &vals { if !els.contains(v) { els.push(v.clone()); } }
           els.sort();
           Ev::Val(SV::Set("f64".into(), els))
